@@ -31,11 +31,16 @@ func (sp *Spec) observe(event string) {
 func NewSpec(p *P) *Spec { return &Spec{P: p, S: NewSchemas(p)} }
 
 // Rejection: an `assert` of the specification that failed.
-type Rejection struct{ Cond string }
+type Rejection struct {
+	Cond string
+	Rule string // the assertion's text before formatting: identifies the assert of the specification
+}
 
 func (r *Rejection) Error() string { return "spec rejects: " + r.Cond }
 
-func reject(format string, args ...any) error { return &Rejection{Cond: fmt.Sprintf(format, args...)} }
+func reject(format string, args ...any) error {
+	return &Rejection{Cond: fmt.Sprintf(format, args...), Rule: format}
+}
 
 // constants not in presets
 const (
@@ -100,9 +105,9 @@ func max64(a, b uint64) uint64 {
 	return b
 }
 
-func (sp *Spec) EpochAtSlot(slot uint64) uint64  { return slot / sp.SLOTS_PER_EPOCH }
-func (sp *Spec) StartSlot(epoch uint64) uint64   { return epoch * sp.SLOTS_PER_EPOCH }
-func (sp *Spec) CurrentEpoch(st *State) uint64   { return sp.EpochAtSlot(st.Slot) }
+func (sp *Spec) EpochAtSlot(slot uint64) uint64 { return slot / sp.SLOTS_PER_EPOCH }
+func (sp *Spec) StartSlot(epoch uint64) uint64  { return epoch * sp.SLOTS_PER_EPOCH }
+func (sp *Spec) CurrentEpoch(st *State) uint64  { return sp.EpochAtSlot(st.Slot) }
 func (sp *Spec) PreviousEpoch(st *State) uint64 {
 	cur := sp.CurrentEpoch(st)
 	if cur == 0 {
@@ -111,7 +116,9 @@ func (sp *Spec) PreviousEpoch(st *State) uint64 {
 	return cur - 1
 }
 
-func IsActive(v *Validator, epoch uint64) bool { return v.ActivationEpoch <= epoch && epoch < v.ExitEpoch }
+func IsActive(v *Validator, epoch uint64) bool {
+	return v.ActivationEpoch <= epoch && epoch < v.ExitEpoch
+}
 
 func IsSlashable(v *Validator, epoch uint64) bool {
 	return !v.Slashed && v.ActivationEpoch <= epoch && epoch < v.WithdrawableEpoch
@@ -277,9 +284,15 @@ func (sp *Spec) ActivationExitEpoch(epoch uint64) uint64 { return epoch + 1 + sp
 
 func IncreaseBalance(st *State, index uint64, delta uint64) { st.Balances[index] += delta }
 
+// OnBalanceSaturated, when set, is told that decrease_balance clamped a balance at zero (coverage evidence only).
+var OnBalanceSaturated func()
+
 func DecreaseBalance(st *State, index uint64, delta uint64) {
 	if delta > st.Balances[index] {
 		st.Balances[index] = 0
+		if OnBalanceSaturated != nil {
+			OnBalanceSaturated()
+		}
 	} else {
 		st.Balances[index] -= delta
 	}
